@@ -1201,10 +1201,10 @@ func main() {
 	// random sequences over every stack up to depth 3 (mem) / a selection (leveldb)
 	memStacks := stacks([]string{"mem"}, 3, []string{"noop", "b64det", "b64rand"})
 	ldbStacks := stacks([]string{"leveldb"}, 2, []string{"b64det", "b64rand"})
-	perMem, perLdb, coqEvery := 3, 2, 1
+	perMem, perLdb, coqEvery := 8, 4, 2
 
 	if thorough {
-		perMem, perLdb = 40, 12
+		perMem, perLdb, coqEvery = 60, 20, 6
 	}
 
 	n := 0
